@@ -220,6 +220,16 @@ def sweep_constructs(tier, viol, stats):
             stats["evals"] += 1
             if out.split() != text.split():
                 viol.append({"clause": "lossless", "function": "wrap_paragraph", "input": {"text": text, "width": 12}, "got": out})
+    # many constructs in one paragraph (placeholder numbers of one and two digits, in every order of restoration)
+    many = ["`c%d`" % k for k in range(13)] + ["[l%d](u%d)" % (k, k) for k in range(11)] + ["{%% t%d %%}" % k for k in range(3)]
+    for rot in range(0, len(many), 5):
+        toks = many[rot:] + many[:rot]
+        text = " w ".join(toks)
+        for width in (10, 30, 200):
+            lines = wrap_paragraph_lines(text, width, 0, 0, is_markdown=True)
+            stats["evals"] += 1
+            if " ".join(lines).split() != text.split():
+                viol.append({"clause": "lossless", "function": "wrap_paragraph_lines", "input": {"text": text, "width": width, "is_markdown": True}, "got": lines})
 
 
 def bounded(tier, seed):
